@@ -11,6 +11,7 @@ import CfavmlModel.Gen.RefTables
 import CfavmlModel.Gen.KernelTables
 import CfavmlModel.Lemmas.ListAll
 import CfavmlModel.Thm.C09
+import CfavmlModel.Spec.NoStd
 
 namespace Cfavml.Thm.C10
 open Tables Spec
@@ -100,6 +101,16 @@ theorem exports_compiled_within_guard : ∀ r ∈ exports, subsetB r.features (a
 
 /-- non-vacuity: exports that are compiled with target features exist (all non-fallback ones) -/
 example : ∃ r ∈ exports, r.reg = .Avx2Fma ∧ r.features = [.avx2, .fma] := by decide +kernel
+
+/-- **C10 (nothing vendor-specific outside the backends).** Syntactic closure of the same statement: outside the register
+backends (`danger/impl_*.rs`) no source file of the crate names a `core::arch` / `std::arch` item (other than the two CPU
+detection macros), calls anything that looks like a vendor intrinsic (`_mm…`, `__cpuid…`, `_xgetbv`, `v…q_f32`) or contains
+`asm!` in code that is compiled into a shipped build — so the only instructions beyond the target baseline are those of the
+backend methods, which `impl_methods_within_guard` bounds. (A hand-rolled CPUID / XGETBV probe in `dispatch.rs`, for example,
+runs `xgetbv` on every call before anything has been verified.) -/
+theorem no_arch_items_outside_backends :
+    archRefs.all (fun r => (noStdBuilds ++ stdBuilds).all (fun b => !compiledIn b r)) = true := by
+  decide +kernel
 
 /-- the kernels only reach the backend through trait methods (so the per-method theorem covers them) -/
 theorem kernels_use_trait_methods_only : kernelMethods.length = 20 := by decide
